@@ -183,7 +183,7 @@ Proof. intros st T. unfold rt_fire_all. apply rt_fire_enough; [exact T|lia]. Qed
 Lemma rt_step_tinv : forall st ev, rt_ev_ok ev -> rt_tinv st ->
   rt_tinv (fst (rt_step st ev)) /\ ~ In RoFuel (snd (rt_step st ev)).
 Proof.
-  intros st ev Hev T. destruct ev as [dt|s m b cfg r| |s m|s m|s m tok|]; cbn [rt_step].
+  intros st ev Hev T. destruct ev as [dt|s m b cfg r| |s m|s m|s m tok|s reason|]; cbn [rt_step].
   - cbn [fst snd]. split; [|intros []]. destruct T as (W & B & F).
     split; [exact W|]. split; [|exact F]. cbn. intros X. specialize (B X). cbn in Hev. lia.
   - unfold rt_send. cbn [fst snd]. split.
@@ -235,6 +235,17 @@ Proof.
     destruct H as (NF & _ & T2 & _). cbn [fst snd]. split; [exact T2|].
     intros I. apply in_app_or in I. destruct I as [I|I]; [|exact (NF I)].
     apply in_map_iff in I. destruct I as (x & X & _). discriminate.
+  - unfold rt_disconnect.
+    pose proof (rt_nodes_cancel (rt_sess_match s) (rs_q st)) as P.
+    pose proof (sq_cancel_wf (rt_sess_match s) (rs_q st)) as Wc.
+    destruct (sq_cancel (rt_sess_match s) (rs_q st)) as [rm q'] eqn:Ec. cbn [fst snd] in *.
+    split.
+    + destruct T as (W & B & F). apply rt_set_q_tinv; [split; [exact W|split; [exact B|exact F]]| | |].
+      * apply Wc. exact W.
+      * intros X Y. rewrite Y in Ec. cbn in Ec. inversion Ec; subst. contradiction.
+      * eapply Permutation_Forall in F; [|exact P]. apply Forall_app in F. tauto.
+    + destruct rm as [|n rm]; [intros [X|[]]; discriminate|].
+      intros I. apply in_map_iff in I. destruct I as (x & X & _). discriminate.
   - cbn [fst snd]. split; [exact T|]. intros [X|[]]; discriminate.
 Qed.
 
